@@ -24,10 +24,25 @@ class DG:
         self.nv = 0
         self.capture_rate = capture_rate
         self.minimal_rate = minimal_rate     # rate of minimal shapes: (when t e), (let () e), (and), (or), (begin e)
+        self.prelude = []                    # top-level definitions the generated expressions rely on (thunks)
 
     def tk(self, e):
+        """a ticking expression, in one of several shapes: the call (tick k e) itself, a call of a procedure of no arguments
+        (a global thunk when e is closed, an immediately applied lambda otherwise), or a one-form begin"""
         self.k += 1
-        return [S("tick"), self.k, e]
+        t = [S("tick"), self.k, e]
+        c = self.rng.random()
+        if c < 0.72:
+            return t
+        if c < 0.86:
+            if closed(e):
+                name = "th%d" % self.k
+                self.prelude.append([S("define"), [S(name)], t])
+                return [S(name)]
+            return [[S("lambda"), [], t]]
+        if c < 0.93:
+            return [[S("lambda"), [], t]]
+        return [S("begin"), t]
 
     def var(self):
         if self.rng.random() < self.capture_rate:
@@ -117,8 +132,11 @@ class DG:
             keyval = r.randint(0, 6)
             key = fill("key", env)
             key = [S("begin"), key, self.tk(keyval)] if key is not None else self.tk(keyval)
-            if r.random() < 0.3:
+            kk = r.random()
+            if kk < 0.25:
                 key = keyval      # a plain atom as key
+            elif kk < 0.35 and env:
+                key = S(r.choice(env))      # a variable as key
             pool = [S("a"), S("b"), 0, 1, 2, 3, 4, 5, 6, True]
             clauses = []
             for i in range(n):
@@ -189,6 +207,7 @@ class DG:
         """definitions and calls with derived forms inside procedures and at top level"""
         r = self.rng
         forms = []
+        self.prelude = forms      # thunk definitions go in front, in generation order
         params = [self.var() for _ in range(r.randint(0, 3))]
         f = "df%d" % r.randint(1, 99)
         body = [self.random_expr(depth, params) for _ in range(r.randint(1, 2))]
@@ -199,6 +218,15 @@ class DG:
         forms.append(self.random_expr(depth, [g]))
         forms.append([S("list"), self.random_expr(depth - 1, [g]), S(g)])
         return forms
+
+
+def closed(e):
+    """no variable references: a literal or a quotation"""
+    if isinstance(e, Sym):
+        return False
+    if isinstance(e, list):
+        return bool(e) and e[0] == S("quote") or all(closed(x) for x in e[1:]) and isinstance(e[0], Sym) and e[0].name in ("not",)
+    return True
 
 
 def binds_capture_prone(x):
